@@ -1,8 +1,9 @@
 ---------------------------- MODULE MC_Producer ----------------------------
 (***************************************************************************)
-(* Production of one block under every interleaving of the environment:     *)
-(*   Start(v)   wait_for_first_slot returned Ready (v = "ready") or          *)
-(*              ParentReadyNotSeen (v = "notready")                          *)
+(* Production of one leader window under every interleaving of the          *)
+(* environment:                                                             *)
+(*   Start(c)   the loop reaches the window in situation c (see             *)
+(*              Producer!OnStart): Ready / ParentReadyNotSeen / Skip         *)
 (*   Tx(len)    a client transaction arrives (sizes from TxSizes, oversized  *)
 (*              ones from OverSizes)                                         *)
 (*   Burst      BurstN transactions of BurstLen bytes arrive back to back at *)
@@ -12,27 +13,34 @@
 (*   Tick       one tick of time passes (slice / block timers expire)        *)
 (*   PR(b)      the ParentReady oneshot fires with b: the block the leader   *)
 (*              builds on ("A") or another one                               *)
-(* Bounds: at most MaxSingles single transactions and one burst per slice;   *)
-(* slices with index < MaxSlices carry state.                                *)
+(*   Finalize   a further finalization reaches the pool (only where the      *)
+(*              transcription of the code says it matters)                   *)
+(* Every step that hands out a slice is taken once per LossMode: the         *)
+(* Disseminator fails for no / every second / every shred of that slice;     *)
+(* the successor state is the same.                                          *)
+(* Bounds: the first block of window w1 gets MaxSingles single transactions  *)
+(* and one burst per slice; every other block LaterSingles transactions of   *)
+(* LaterSizes per slice; slices with index < MaxSlices carry state.          *)
 (* EDGE / STATE dump for the replay into the real BlockProducer.             *)
 (***************************************************************************)
 EXTENDS Producer, Json, TLC, TLCExt
 
 CONSTANTS
-  Variants,     \* subset of {"ready", "notready"}
+  Starts,       \* situations in which the loop reaches the window (codes of Producer!OnStart)
   Parents,      \* blocks ParentReady may name; "A" is the block of the previous slot the leader builds on
   TxSizes,      \* payload sizes of single transactions (<= MaxTx)
   OverSizes,    \* payload sizes of oversized transactions (> MaxTx)
   BurstN,       \* transactions per burst (0: no bursts)
   BurstLen,     \* their payload size
   MaxSingles,   \* single transactions per slice
+  LaterSizes,   \* sizes of the transactions while the other blocks are produced
+  LaterSingles, \* ... and how many per slice
+  LossModes,    \* subset of {"none", "odd", "all"}
   MaxSlices     \* slices 0..MaxSlices-1 carry state
 
 VARIABLES p, act, out, nS, bu, sid
 
 vars == <<p, act, out, nS, bu, sid>>
-
-Opt == "A"
 
 \* history is kept in the state but only its property-relevant projection distinguishes states:
 \* the exact size / transaction count of an already shipped slice never influences the future
@@ -50,13 +58,15 @@ Init ==
   /\ bu = FALSE
   /\ sid = SId(p, nS, bu)
 
+\* one step; if it hands out a slice, the Disseminator's behaviour `l` for that slice is part of the step
 Step(a, r, n, b) ==
-  LET fresh == r.p.idx # p.idx \/ r.p.phase # p.phase      \* a new slice: budgets start again
+  LET fresh == r.p.idx # p.idx \/ r.p.phase # p.phase \/ r.p.k # p.k \/ r.p.win # p.win   \* a new slice: budgets start again
       n1 == IF fresh THEN 0 ELSE n
       b1 == IF fresh THEN FALSE ELSE b
-  IN /\ p' = r.p
-     /\ act' = a
-     /\ out' = r.out
+  IN \E l \in (IF r.out.ship = <<>> THEN {"none"} ELSE LossModes) :
+     /\ p' = r.p
+     /\ act' = a @@ [loss |-> l]
+     /\ out' = [r.out EXCEPT !.ship = [i \in 1..Len(r.out.ship) |-> r.out.ship[i] @@ [sent |-> Sent(l)]]]
      /\ nS' = n1
      /\ bu' = b1
      /\ sid' = SId(r.p, n1, b1)
@@ -65,30 +75,34 @@ RECURSIVE BurstStep(_, _)
 BurstStep(q, k) == IF k = 0 THEN q ELSE BurstStep(OnTx(q, BurstLen).p, k - 1)
 
 \* context of the step for the replay report: variant, reservation in force for the slice being filled
-Ctx(a) == a @@ [v |-> p.variant, rsv |-> p.rsv, i |-> p.idx]
+Ctx(a) == a @@ [v |-> p.variant, rsv |-> p.rsv, i |-> p.idx, w |-> p.win, k |-> p.k, c |-> p.cond]
+
+Detailed == p.win = "w1" /\ p.k = 0        \* the block whose byte boundaries are explored
 
 Next ==
  /\ p.idx < MaxSlices          \* a state whose slice index reached MaxSlices is not explored further
  /\
   \/ /\ p.phase = "idle"
-     /\ \E v \in Variants : Step([op |-> "start", v |-> v, b |-> Opt], OnStart(p, v, Opt), 0, FALSE)
-  \/ /\ p.phase = "collect" /\ nS < MaxSingles
-     /\ \E len \in TxSizes \cup OverSizes :
+     /\ \E c \in Starts : Step([op |-> "start", c |-> c, v |-> StartVariant(c)], OnStart(p, c), 0, FALSE)
+  \/ /\ p.phase = "collect" /\ nS < (IF Detailed THEN MaxSingles ELSE LaterSingles)
+     /\ \E len \in (IF Detailed THEN TxSizes \cup OverSizes ELSE LaterSizes) :
           LET r == OnTx(p, len) IN Step(Ctx([op |-> "tx", len |-> len, acc |-> r.out.acc]), r, nS + 1, bu)
-  \/ /\ p.phase = "collect" /\ BurstN > 0 /\ ~bu /\ nS = 0 /\ p.cnt = 0
+  \/ /\ p.phase = "collect" /\ Detailed /\ BurstN > 0 /\ ~bu /\ nS = 0 /\ p.cnt = 0
      /\ p.buf + BurstN * TxCost(BurstLen) + MaxTx + TxOverhead <= Space(p.par, p.rsv)   \* the burst does not fill the slice
      /\ Step(Ctx([op |-> "burst", len |-> BurstLen, n |-> BurstN, acc |-> BurstN]),
              R(BurstStep(p, BurstN), [NoOut EXCEPT !.acc = BurstN]), nS, TRUE)
   \/ /\ p.phase \in {"collect", "await"}
      /\ Step(Ctx([op |-> "tick"]), OnTick(p), nS, bu)
-  \/ /\ p.phase \in {"collect", "await"} /\ p.variant = "notready" /\ p.pr = Unseen
+  \/ /\ p.phase \in {"collect", "await"} /\ p.variant = "notready" /\ p.pr = Unseen /\ ~p.pruned
      /\ \E b \in Parents : Step(Ctx([op |-> "pr", b |-> b]), OnParentReady(p, b), nS, bu)
+  \/ /\ ~CanComplete(p) /\ p.pr = Unseen
+     /\ Step(Ctx([op |-> "finalize"]), OnFinalize(p), nS, bu)
 
 ---------------------------------------------------------------------------
 EmitEdge == PrintT(<<"EDGE", ToJson([f |-> sid, a |-> act', e |-> out', t |-> sid'])>>)
-Obs(q) == [phase |-> q.phase, n |-> Len(q.shipped),
+Obs(q) == [phase |-> q.phase, w |-> q.win, k |-> q.k, n |-> Len(q.shipped),
            sl |-> [i \in 1..Len(q.shipped) |-> [idx |-> q.shipped[i].idx, last |-> q.shipped[i].last, par |-> q.shipped[i].par]],
-           eff |-> q.eff]
+           blocks |-> q.blocks, skipped |-> q.skipped]
 EmitState == PrintT(<<"STATE", ToJson([id |-> sid, init |-> (TLCGet("level") = 1), obs |-> Obs(p)])>>)
 
 ---------------------------------------------------------------------------
@@ -103,23 +117,21 @@ InvEffectiveParentIsReady == EffectiveParentIsReady(p)
 InvTxConserved == TxConserved(p)
 InvRoomForOne == RoomForOne(p)
 InvNeverStuck == NeverStuck(p)
+InvCanComplete == CanComplete(p)
+InvBlocksOK == NoBlockViolation(p)
+InvWindowChain == WindowChain(p)
+InvWindowShape == WindowShape(p)
+InvWholeWindows == WholeWindows(p)
 \* the step outputs agree with the state (what the replay compares is what the invariants speak about)
 InvOutConsistent ==
   /\ Len(out.ship) <= 1
-  /\ Len(out.ship) = 1 => \E i \in 1..Len(p.shipped) : i >= Len(p.shipped) - 1 /\ p.shipped[i] = out.ship[1]
-  /\ out.done <=> (p.phase = "done" /\ act.op # "init" /\ Len(out.ship) = 1)
-  /\ out.done => out.eff = p.eff
+  /\ out.done => (Len(out.ship) = 1 /\ out.ship[1].last /\ p.blocks # <<>>
+                  /\ p.blocks[Len(p.blocks)] = [w |-> out.w, k |-> out.k, par |-> out.eff])
   /\ (out.panic # "") => p.phase = "panic"
+  /\ out.skip => (p.skipped # <<>> /\ p.blocks = <<>>)
 
 (* vacuity witnesses: each must be VIOLATED, i.e. the situation is reachable *)
-W_DoneReady == ~(p.phase = "done" /\ p.variant = "ready" /\ Len(p.shipped) >= 2)
-W_DoneSame == ~(p.phase = "done" /\ p.variant = "notready" /\ p.pr = Opt /\ Len(p.shipped) >= 2)
-W_SwitchLater == ~(p.phase = "done" /\ Switches(p) # {})
-W_SwitchFirst == ~(p.phase = "done" /\ p.variant = "notready" /\ p.pr # Opt /\ Switches(p) = {})
-W_ExactlyFull == ~(\E i \in 1..Len(p.shipped) : p.shipped[i].size = MaxData)
-W_SwitchExactlyFull == ~(\E i \in Switches(p) : p.shipped[i].size = MaxData)
-W_Room39 == ~(\E i \in 2..Len(p.shipped) : p.shipped[i].par = NoParent /\ MaxData - p.shipped[i].size \in 1..39)
-W_Dropped == ~(p.dropped > 0 /\ p.phase = "done")
 W_Await == p.phase # "await"
-W_Overflow == NoOverflow(p) /\ NoPanic(p)
+W_Done == p.phase # "done"
+W_Stuck == CanComplete(p)
 =============================================================================
